@@ -535,6 +535,14 @@ def run_c12(tier, budget, rnd) -> StreamResult:
     BOUNDS, Coalition, minimal_game_coalitions, ICG, gaps = _mods()
 
     res = StreamResult("evaluate")
+    _record, _per_key = res.violation, {}
+
+    def violation(what, replay, key=None):      # at most 6 reports per failing site, so that every site shows
+        _per_key[key] = _per_key.get(key, 0) + 1
+        if _per_key[key] <= 6:
+            _record(what, replay, key=key)
+        res.count(f"violation:{key}")
+    res.violation = violation
     script = Script()
     quick = tier == "quick"
     procs_list = [1, 2, 3, 5] if quick else list(range(1, 17))
